@@ -65,6 +65,23 @@ def api_calls(o, rng):
                   ('simplify', lambda: R.simplify(o)),
                   ('replace_this_with_var', lambda: R.replace_this_with_var(o, 'Z')),
                   ('replace_var_with_this', lambda: R.replace_var_with_this(o, 'A'))]
+    if o.is_expression or o.is_predicate:
+        # the substitution methods themselves, with replacements whose type is narrower than the place they go to: the new parent is
+        # built around operands shared with `o` (a validator that narrowed them in place would retype `o`)
+        from hpl.ast.expressions import HplVarReference
+        try:
+            names = sorted(o.external_references())
+        except Exception:
+            names = []
+        for v in names[:3] + ['v']:
+            for lbl, mk in (('1', lambda: HplLiteral('1', 1)), ('"s"', lambda: HplLiteral('"s"', 's')), ('True', lambda: HplLiteral('True', True)),
+                            ('@w', lambda: HplVarReference('@w'))):
+                calls.append((f'replace_var_reference({v},{lbl})', (lambda v=v, mk=mk: o.replace_var_reference(v, mk()))))
+        calls += [('replace_self_reference(@w)', lambda: o.replace_self_reference(HplVarReference('@w')))]
+        if o.is_expression:
+            calls += [('reshape(identity)', lambda: o.reshape(lambda e: e)), ('reshape(identity,deep)', lambda: o.reshape(lambda e: e, deep=True)),
+                      ('reshape(literal-for-var)', lambda: o.reshape(lambda e: HplLiteral('2', 2) if getattr(e, 'is_variable', False) else e, deep=True)),
+                      ('replace(var->literal)', lambda: o.replace(lambda e: getattr(e, 'is_variable', False), HplLiteral('3', 3)))]
     if o.is_expression:
         t = rng.choice([DataType.BOOL, DataType.NUMBER, DataType.STRING, DataType.PRIMITIVE, DataType.ANY, DataType.ARRAY, DataType.MESSAGE])
         calls += [(f'cast({t.name})', lambda: o.cast(t)),
@@ -134,6 +151,15 @@ def run(ctx):
             ptxt = render_property(pg.prop(), rng, 'min')
             try:
                 roots.append(('parse_property', ptxt, pp.parse(ptxt)))
+            except Exception:
+                pass
+    # free variables next to untyped own fields: the places where a substitution narrows a type
+    for body in ('a = @v', '@v = a', 'a != @v', 'x + @v > 0', 'a = @v and b', '@v in xs', 'a in {@v, c}', 'not (@v = c)', 'm.y = @v', 'a = @v or a = @u',
+                 'xs[@v] = a', 'a = @v.f', '(a = @v) implies (c = @v)', 'forall i in xs: @i = @v', 'a in [@v to @u]', 'abs(@v) = a'):
+        for origin, txt, parser in (('free-variable expression', body, ep), ('free-variable predicate', '{ ' + body + ' }', prp),
+                                    ('free-variable property', 'globally: no t { ' + body + ' }', pp)):
+            try:
+                roots.append((origin, txt, parser.parse(txt)))
             except Exception:
                 pass
     from rulefam import rule_directed
